@@ -125,6 +125,12 @@ func HarnessC04GRPCStreamCut() {
 	trailer := make(http.Header)
 	if trailersPresent {
 		trailer[grpcHeaderStatus] = []string{"0"}
+	} else if nondetBool("trailersDeclared") {
+		// the response announced its trailers ("Trailer: Grpc-Status, ..."):
+		// net/http then lists the keys with nil values until they arrive -
+		// and here they never do
+		trailer[grpcHeaderStatus] = nil
+		trailer[grpcHeaderMessage] = nil
 	}
 	fr := &faultReader{data: body, cut: cut, kind: kind}
 	d := c04Duplex(fr, trailer)
